@@ -55,6 +55,14 @@ def exec_HEAP(t):
         for tok in t:
             p = tok.split(':')
             k = p[0]
+            linked = None
+            if k in ('K', 'C', 'J', 'L', 'B', 'H') and (len(order) + len(tok)) % 2 == 0:
+                # (content-determined) while it is copied, the source's configuration names the source itself as the format of its
+                # results ("what I compute keeps my format": config.op_out_like = x, or array_op_out_like) — a reference inside the
+                # configuration is part of what a copy must not share; the link is taken off both objects right after
+                linked = objs[p[3] if k == 'L' else p[2]]
+                which = 'op_out_like' if len(order) % 2 else 'array_op_out_like'
+                setattr(linked.config, which, linked)
             if k == 'N':
                 s, n, f, r, c = p[2] == 's', int(p[3]), int(p[4]), int(p[5]), int(p[6])
                 shape = () if c == 0 else ((c,) if r == 0 else (r, c))
@@ -119,6 +127,10 @@ def exec_HEAP(t):
                 objs[p[1]].reset()
             else:
                 raise ValueError(tok)
+            if linked is not None:
+                for o_ in (linked, objs[p[1]]):
+                    o_.config.op_out_like = None
+                    o_.config.array_op_out_like = None
             out.append(snap(objs, order))
     except Exception as e:
         return out + [exc_token(e)]
